@@ -5,10 +5,10 @@ CONSTANTS
   Packets <- MCPackets
   MaxTimers = 3
   MaxSess = 2
-  MaxTime = 500
+  MaxTime = 400
   MaxReqs = 2
   MaxAns = 1
-  Reliable = FALSE
+  Reliable = TRUE
   Bug = "none"
 INVARIANT NoClosedLinkTx
 INVARIANT NoCrossSession
